@@ -99,6 +99,10 @@ pub fn log_close() -> u64 {
     LOG_LINES.with(|n| *n.borrow())
 }
 
+pub fn log_lines() -> u64 {
+    LOG_LINES.with(|n| *n.borrow())
+}
+
 /// Emit one NDJSON event.
 pub fn ev(v: serde_json::Value) {
     let s = serde_json::to_string(&v).unwrap();
